@@ -298,7 +298,7 @@ def main(tier, seed, replay=None):
         return do_replay(replay, exe)
     work = vlib.mktmp("c31w")
     sts = strata(tier)
-    nsel = 300 if tier == "quick" else 3000
+    nsel = 240 if tier == "quick" else 3000
     lawshards = 1 if tier == "quick" else 5
     # 1-2: enumerate the matcher case spaces and replay them into the real matcher
     for i, st in enumerate(sts):
